@@ -2,6 +2,7 @@ import Ts.Lemmas.C10
 import Ts.Lemmas.C10b
 import Ts.Props.C06
 import Ts.Lemmas.C11c
+import Ts.Lemmas.C11d
 /-!
 # C11 — after a damaged PAT / PMT transmission the next intact one is applied … PARTIALLY
 
@@ -24,10 +25,16 @@ stated is FALSE of the code.  This file proves
   version differs from the last STARTED one — relative to that hypothesis F2 is the only gap
   (`C11_gap_is_F2` is the contrapositive of the "if" direction);
 * `short_first_share_never_applied` (+ `_reset`, `_ignored`, `_section`,
-  `short_first_share_counterexample`): a SECOND gap, OUTSIDE `WellFormedMux`: an intact transmission
-  whose starting packet carries fewer than 8 bytes of the section is never applied, at any version
-  (the library's documented `TODO: implement buffering`); `straddle_rescues_F2` /
+  `short_first_share_counterexample`): **known finding F13** (`/verif/known_findings.json`, DESIGN §8)
+  — a SECOND gap, OUTSIDE `WellFormedMux`: an intact transmission whose starting packet carries fewer
+  than 8 bytes of the section (a legal packetisation) is never applied, at any version (the library's
+  documented `TODO: implement buffering`; C03 states "the packet carries at least the section's fixed
+  header" as a hypothesis, C11's text does not); `straddle_rescues_F2` /
   `short_share_reset_then_applied`: its `< 3`-byte variant resets the filter and thereby un-blocks F2;
+* `duplicate_start_blocks_section`, `duplicate_start_blocks_table`: F2 needs NO DAMAGE — a legal
+  duplicate (same continuity counter) of the first packet of a multi-packet table makes the table
+  never applied (reviewer case N5; scope observation DESIGN 8.1b: duplicates are outside the
+  multiplex specs);
 * `damage_then_new_version_requests_pat` / `_pmt` / `_runApp`, `damage_same_version_no_requests`:
   the partial theorem and F2 through the DISPATCHER (`pushModel App.sem`, changes applied between
   packets), in terms of `Ev.construct` events and `Tab.get`;
@@ -465,7 +472,7 @@ theorem C11_characterisation (S : Bytes) (hS : WellFormedSection .syntax S)
         damage_then_new_version_applied_partial S hS h12 hcrc m hm s hs hv off rest hus hrest
       exact ⟨sfin, _, h1, by simp⟩
 
-/-! ### the SECOND gap: a first share shorter than the fixed header (outside `WellFormedMux`) -/
+/-! ### the SECOND gap — known finding F13: a first share shorter than the fixed header (outside `WellFormedMux`) -/
 
 /-- **First share of 1..2 bytes ⇒ `reset`.**  Any state `s` (buffer invariant); a unit-start payload
 `pointer_field :: pre ++ D` where `D` — the bytes of the new section present in this payload, at its
@@ -537,18 +544,24 @@ theorem short_first_share_ignored (s : St) (hs : PsiInv .syntax s) (pre D : Byte
   simp only [runPl, h1, R.ok_bind, h2]
   simp
 
-/-- **The second gap, both cases.**  Any state `s` with the buffer invariant — ANY remembered
+/-- **The second gap (known finding F13), both cases.**  Any state `s` with the buffer invariant — ANY remembered
 version, so this is independent of F2; a unit-start payload `pointer_field :: pre ++ D` whose new
 section share `D` has 1..7 bytes; ANY continuation payloads `rest` up to the next unit start.  Then
 the only deliveries are those the pointer bytes `pre` complete of the OLD buffer: the section that
 starts here is never delivered, although nothing of it is damaged.  Resulting state: `reset` for
 1..2 bytes, `ignoreRest` (version memory untouched) for 3..7 bytes.
 
-This is the library's documented `TODO: implement buffering` (`psi/mod.rs`,
-`SectionPacketConsumer::consume` and `SectionSyntaxSectionProcessor::start_section`), not a new
-finding; every `…_partial` theorem of this file excludes it through `hm : WellFormedMux` (which
-demands `8 ≤` first share), and it is why C03's `section_reassembled` carries the hypothesis "that
-packet carries at least the section's fixed header" (`Ts.Props.C03.header_straddling_dropped`). -/
+**KNOWN FINDING F13** (`/verif/known_findings.json`; DESIGN.md §8): such a packetisation is legal
+(a section may start anywhere in a payload), nothing is damaged, and C11's text ("the next intact
+transmission … is applied") does not exclude it, so the property as written fails here; byte-level
+witness `short_first_share_counterexample` (F13's probe has the same shape: a damaged PAT v0, then
+the intact PAT v1 with a 5-byte first share).  The root is the library's documented
+`TODO: implement buffering` (`psi/mod.rs`, `SectionPacketConsumer::consume` and
+`SectionSyntaxSectionProcessor::start_section`), the same as F8's.  Every `…_partial` theorem of this
+file excludes the shape through `hm : WellFormedMux` (which demands `8 ≤` first share), and it is why
+C03's `section_reassembled` carries the hypothesis "that packet carries at least the section's fixed
+header" (`Ts.Props.C03.header_straddling_dropped`).  (An earlier version of this docstring called it
+"not a new finding"; the second review corrected that.) -/
 theorem short_first_share_never_applied (s : St) (hs : PsiInv .syntax s) (pre D : Bytes) (off : Nat)
     (hD1 : 1 ≤ D.length) (hD8 : D.length < 8) (hsz : 1 + pre.length + D.length ≤ 184)
     (rest : List Pl) (hus : ∀ q ∈ rest, q.us = false) (hne : ∀ q ∈ rest, 1 ≤ q.bytes.length) :
@@ -616,7 +629,7 @@ theorem short_share_reset_then_applied (s : St) (hs : PsiInv .syntax s) (pre D :
   rw [preSpec_idle _ _ _ hr, List.nil_append] at h1
   exact ⟨s1, sfin, hrun, hl, h1, hq⟩
 
-/-- **Second gap on real bytes, whole application** (`runApp` = `Demultiplex::new` + `push`).
+/-- **Known finding F13 on real bytes, whole application** (`runApp` = `Demultiplex::new` + `push`).
 `splitTx patGood k`: the intact 16-byte PAT `patGood` (valid CRC, version 0) sent on PID 0 as a
 unit-start packet carrying `pointer_field = 183 - k`, `183 - k` stuffing bytes `0xff`, and the first
 `k` section bytes, followed by a continuation packet with the other `16 - k` bytes.
@@ -1148,5 +1161,174 @@ example : WellFormedSection .syntax pmtGood ∧ Ts.CrcSpec.crc pmtGood = 0 ∧
 /-- `lastApplied_is_crc_gate`: both directions occur -/
 example : lastApplied [⟨patBad, some 5⟩] = none ∧ lastApplied [⟨patV1, some 5⟩, ⟨patBad, some 5⟩] = some 1 := by
   decide +kernel
+
+/-! ### F2 without damage: a legal duplicate of a multi-packet table's first packet (reviewer N5) -/
+
+/-- **A duplicated start blocks its own table.**  `S`: a well-formed section in a `WellFormedMux`
+packetisation `m` that needs MORE than one packet (`hk : m.k < S.length`) with `pointer_field = 0`
+(`hpre`); `s`: ANY state with the buffer invariant (e.g. a fresh filter, or one that applied another
+version).  The starting payload `m.first S` arrives TWICE (a duplicate transport packet: same bytes,
+same continuity counter — the section layer never looks at the counter), then the continuation
+payloads `rest`.  Then the whole run delivers NOTHING: the first copy starts buffering and records
+`versionOf S`; the second copy is taken for a repetition of that version (`dedupIgnore`), and the
+continuations are dropped.  The version stays recorded, so every later intact transmission of `S` is
+blocked as well (`damage_same_version_blocked`).  No byte of the table was damaged or lost. -/
+theorem duplicate_start_blocks_section (S : Bytes) (hS : WellFormedSection .syntax S) (h8 : 8 ≤ S.length)
+    (m : Mux) (hm : WellFormedMux .syntax S m) (hk : m.k < S.length) (hpre : m.pre = [])
+    (s : St) (hs : PsiInv .syntax s) (off off' : Nat) (rest : List Pl)
+    (hus : ∀ q ∈ rest, q.us = false) (hrest : rest.map (·.bytes) = m.rest) :
+    ∃ s1 sfin,
+      consumePayload Psi.table s true (m.first S) off = .ok (s1, [])
+      ∧ s1.lastVersion = some (versionOf S)
+      ∧ runPl Psi.table s1 (⟨true, m.first S, off'⟩ :: rest) = .ok (sfin, [])
+      ∧ runPl Psi.table s (⟨true, m.first S, off⟩ :: ⟨true, m.first S, off'⟩ :: rest) = .ok (sfin, [])
+      ∧ sfin.lastVersion = some (versionOf S) ∧ PsiInv .syntax sfin := by
+  obtain ⟨s1, h1, hv1, hi1⟩ := first_payload_incomplete S hS h8 m hm hk s hs off
+  rw [hpre] at h1
+  have h1' : consumePayload Psi.table s true (m.first S) off = .ok (s1, []) := by
+    rw [h1]; simp [preSpec]
+  obtain ⟨sfin, _, h2, hv2, hi2⟩ := damage_same_version_blocked S hS h8 m hm s1 hi1 hv1 off' rest hus hrest
+  refine ⟨s1, sfin, h1', hv1, h2 hpre, ?_, hv2, hi2⟩
+  have := h2 hpre
+  simp only [runPl, h1', R.ok_bind] at this ⊢
+  rw [this]
+  rfl
+
+/-- **Reviewer case N5 on real bytes, whole application** (`runApp {}` = harness `demux b0t0`; byte
+lists `Ts.Lemmas.C11c.n5Bytes` / `n5CtlBytes` = case lines `N5` / `N5ctl` of
+`/tmp/pr/rev2e_cases.txt`).  `pmtN5`: an intact PMT, version 1, 40 streams, 216 bytes, valid CRC,
+sent on PID 0x100 as two packets `a` (unit start, counter 0, 183 section bytes) and `b`
+(continuation, counter 1).
+
+* `PAT, a, a, b` — the first packet DUPLICATED (identical bytes, same continuity counter): only
+  `ByPid(0)` and `Pmt(0x100, 1)` are ever requested, NO stream request; the PMT filter is left
+  buffering 183 bytes with `dedupIgnore` set and version 1 recorded; two further intact
+  transmissions `a, b` change nothing;
+* control `PAT, a, b`: the 40 stream requests are issued.
+Identical to the output of the real code on these bytes.
+
+SCOPE OBSERVATION (DESIGN.md 8.1b), NOT a known finding.  Duplicate packets are legal (ISO/IEC
+13818-1 2.4.3.3: a packet may be sent twice with the same continuity_counter), and nothing is damaged
+or lost, so this shows that F2 ("version recorded at section start") needs no damage.  But it is
+outside what C11 quantifies over (damaged transmissions followed by intact ones) and outside the
+multiplex specifications used here (`WellFormedMux` / `Transmits` have no duplicate case; `Conts`
+requires `cc + 1`); C09's text treats a duplicate as a continuity error.  The mechanism is
+`duplicate_start_blocks_section`. -/
+theorem duplicate_start_blocks_table :
+    (WellFormedSection .syntax pmtN5 ∧ pmtN5.length = 216 ∧ Ts.CrcSpec.crc pmtN5 = 0
+      ∧ versionOf pmtN5 = 1 ∧ byteD pmtN5 0 = 2)
+    ∧ n5Bytes = pktOf patN5 ++ n5a ++ n5a ++ n5b ∧ n5CtlBytes = pktOf patN5 ++ n5a ++ n5b
+    ∧ (plOf n5a = some ⟨true, n5Mux.first pmtN5, 4⟩ ∧ readBits n5a 28 4 = 0 ∧ readBits n5b 28 4 = 1)
+    ∧ requests (runApp {} [n5Bytes]) = [.byPid 0, .pmt 0x100 1]
+    ∧ pmtSlot100 (runApp {} [n5Bytes])
+        = some ({ lastVersion := some 1, dedupIgnore := true, buf := pmtN5.take 183, remaining := some 33 }, [])
+    ∧ requests (runApp {} [n5Bytes ++ n5a ++ n5b ++ n5a ++ n5b]) = [.byPid 0, .pmt 0x100 1]
+    ∧ requests (runApp {} [n5CtlBytes])
+        = .byPid 0 :: .pmt 0x100 1 ::
+            (List.range 40).map (fun i => Req.stream 0x100 0x1b (0x101 + i) 0x101 [] []) :=
+  ⟨⟨pmtN5_facts.1, pmtN5_facts.2.1, pmtN5_facts.2.2.1, pmtN5_facts.2.2.2.1, pmtN5_facts.2.2.2.2.1⟩,
+   rfl, rfl, ⟨n5_plOf.2.2.1, n5_plOf.2.2.2.2.1, n5_plOf.2.2.2.2.2⟩, n5_run, n5_slot, n5_run_more, n5_ctl_run⟩
+
+/-- `duplicate_start_blocks_section` applied to the payloads of `a`, `a`, `b` on a fresh filter -/
+example : ∃ s1 sfin,
+    consumePayload Psi.table {} true (n5Mux.first pmtN5) 4 = .ok (s1, [])
+    ∧ s1.lastVersion = some 1
+    ∧ runPl Psi.table {} [⟨true, n5Mux.first pmtN5, 4⟩, ⟨true, n5Mux.first pmtN5, 4⟩,
+        ⟨false, pmtN5.drop 183 ++ List.replicate 151 0xff, 4⟩] = .ok (sfin, [])
+    ∧ sfin.lastVersion = some 1 := by
+  obtain ⟨w1, w2, _, w4, _, w6, w7, w8⟩ := pmtN5_facts
+  obtain ⟨s1, sfin, a1, a2, _, a4, a5, _⟩ := duplicate_start_blocks_section pmtN5 w1 (by rw [w2]; decide)
+    n5Mux w6 w7 w8 {} (psiInv_of_none _ _ rfl) 4 4 [⟨false, pmtN5.drop 183 ++ List.replicate 151 0xff, 4⟩]
+    (by simp) rfl
+  rw [w4] at a2 a5
+  exact ⟨s1, sfin, a1, a2, a4, a5⟩
+
+/-! ### non-vacuity (second review round): evaluated instances of the remaining general theorems -/
+
+/-- `C11_gap_is_F2` APPLIED: history = the corrupt copy `patBad`; the intact `patGood` in one packet is
+not delivered (`hfail`, from `damage_same_version_blocked`); all other hypotheses evaluated.  The
+theorem then returns the cause: the last STARTED version is that of `patGood`. -/
+example : ({ lastVersion := some 0 } : St).lastVersion = some (versionOf patGood) := by
+  have hhist : runPl Psi.table {} [⟨true, plBytesOf patBad, 4⟩]
+      = .ok ({ lastVersion := some 0 }, [⟨patBad, some 5⟩]) := by decide +kernel
+  refine C11_gap_is_F2 [⟨true, plBytesOf patBad, 4⟩] _ _ (by decide +kernel) hhist
+    patGood (muxOf patGood) 4 [] (by decide +kernel) (by decide +kernel) (by decide +kernel)
+    (by decide +kernel) (by simp) rfl ?_
+  rintro ⟨sfin, ds, hrun, hmem⟩
+  obtain ⟨sfin', _, hb, _⟩ := damage_same_version_blocked patGood (by decide +kernel) (by decide +kernel)
+    (muxOf patGood) (by decide +kernel) { lastVersion := some 0 } (psiInv_of_none _ _ rfl)
+    (by decide +kernel) 4 [] (by simp) rfl
+  rw [hb rfl] at hrun
+  cases hrun
+  simp at hmem
+
+/-- `C11_deliveries_exact` APPLIED on the F2-blocked state, both branches of its `if`: `patGood`
+(version 0 = the recorded one) contributes nothing, `patV1` is delivered -/
+example :
+    (∃ sfin, runPl Psi.table { lastVersion := some 0 } [⟨true, (muxOf patGood).first patGood, 4⟩]
+        = .ok (sfin, []) ∧ sfin.lastVersion = some 0)
+    ∧ (∃ sfin, runPl Psi.table { lastVersion := some 0 } [⟨true, (muxOf patV1).first patV1, 4⟩]
+        = .ok (sfin, [⟨patV1, some 5⟩]) ∧ sfin.lastVersion = some 1) := by
+  obtain ⟨s0, h0, v0, _⟩ := C11_deliveries_exact patGood (by decide +kernel) (by decide +kernel)
+    (by decide +kernel) (muxOf patGood) (by decide +kernel) { lastVersion := some 0 }
+    (psiInv_of_none _ _ rfl) 4 [] (by simp) rfl
+  obtain ⟨s1, h1, v1, _⟩ := C11_deliveries_exact patV1 (by decide +kernel) (by decide +kernel)
+    (by decide +kernel) (muxOf patV1) (by decide +kernel) { lastVersion := some 0 }
+    (psiInv_of_none _ _ rfl) 4 [] (by simp) rfl
+  have e0 : versionOf patGood = 0 := by decide +kernel
+  have e1 : versionOf patV1 = 1 := by decide +kernel
+  have k1 : (muxOf patV1).k = patV1.length := rfl
+  rw [e0] at h0 v0
+  rw [e1, k1] at h1
+  rw [e1] at v1
+  rw [preSpec_idle _ _ _ rfl] at h0 h1
+  simp only [if_true, List.append_nil] at h0
+  rw [if_neg (by decide)] at h1
+  refine ⟨⟨s0, h0, v0⟩, ⟨s1, ?_, v1⟩⟩
+  rw [h1]
+  rfl
+
+/-- `damaged_start_then_same_version_blocked` APPLIED: a fresh filter; a TRUNCATED start (only the
+first 8 bytes of `patGood` arrive, `pointer_field = 0`); a wrong continuation payload (3 bytes);
+then the intact `patGood` in one packet: nothing is ever delivered -/
+example : ∃ s1 sfin,
+    runPl Psi.table {} [⟨true, 0x00 :: patGood.take 8, 4⟩, ⟨false, [0xaa, 0xbb, 0xcc], 4⟩] = .ok (s1, [])
+    ∧ s1.lastVersion = some 0
+    ∧ runPl Psi.table {} ([⟨true, 0x00 :: patGood.take 8, 4⟩, ⟨false, [0xaa, 0xbb, 0xcc], 4⟩]
+        ++ [⟨true, (muxOf patGood).first patGood, 4⟩]) = .ok (sfin, []) := by
+  obtain ⟨s1, ds, sfin, a1, a2, _, a4, _⟩ := damaged_start_then_same_version_blocked {}
+    (psiInv_of_none _ _ rfl) [] (patGood.take 8) 4 (by decide) (by decide +kernel)
+    [⟨false, [0xaa, 0xbb, 0xcc], 4⟩] (by simp) (by simp)
+    patGood (by decide +kernel) (by decide +kernel) (by decide +kernel) (muxOf patGood) (by decide +kernel)
+    rfl 4 [] (by simp) rfl
+  have e : runPl Psi.table {} [⟨true, 0x00 :: patGood.take 8, 4⟩, ⟨false, [0xaa, 0xbb, 0xcc], 4⟩]
+      = .ok ({ lastVersion := some 0, buf := patGood.take 8 ++ [0xaa, 0xbb, 0xcc], remaining := some 5 }, []) := by
+    decide +kernel
+  have a1' : runPl Psi.table {} [⟨true, 0x00 :: patGood.take 8, 4⟩, ⟨false, [0xaa, 0xbb, 0xcc], 4⟩]
+      = .ok (s1, ds) := a1
+  rw [e] at a1'
+  cases a1'
+  exact ⟨_, sfin, e, rfl, a4⟩
+
+/-- `pointer_beyond_payload_reset` APPLIED: a filter that has applied version 0; a unit-start payload
+`02 ff ff` (`pointer_field = 2`, only two bytes follow): reset at once — the version is forgotten —
+and the model's own evaluation agrees -/
+example :
+    consumePayload Psi.table { lastVersion := some 0 } true [0x02, 0xff, 0xff] 4
+      = .ok (procReset Psi.table { lastVersion := some 0 }, [])
+    ∧ (procReset Psi.table { lastVersion := some 0 }).lastVersion = none
+    ∧ consumePayload Psi.table { lastVersion := some 0 } true [0x02, 0xff, 0xff] 4 = .ok ({}, []) :=
+  ⟨pointer_beyond_payload_reset { lastVersion := some 0 } (psiInv_of_none _ _ rfl) [0xff, 0xff] 4
+      (by simp) (by decide),
+   rfl, by decide +kernel⟩
+
+/-- `short_first_share_never_applied_section` APPLIED: the first 5 bytes of the intact `patV1` at the
+end of a unit-start payload (`pointer_field = 0`), the other 11 in a continuation payload, on a filter
+that remembers version 0: nothing is delivered (F13's shape) -/
+example : ∃ sfin, runPl Psi.table { lastVersion := some 0 }
+    [⟨true, 0 :: patV1.take 5, 4⟩, ⟨false, patV1.drop 5 ++ List.replicate 173 0xff, 4⟩] = .ok (sfin, []) :=
+  short_first_share_never_applied_section patV1 5 (by decide) (by decide) (by decide +kernel)
+    { lastVersion := some 0 } (psiInv_of_none _ _ rfl) 4
+    [⟨false, patV1.drop 5 ++ List.replicate 173 0xff, 4⟩] (by simp) (by decide +kernel)
 
 end Ts.Props.C11
